@@ -5,6 +5,7 @@ go 1.20
 require (
 	github.com/evergreen-ci/birch v0.0.0-20191213201306-f4dae6f450a2
 	github.com/mongodb/ftdc v0.0.0
+	go.mongodb.org/mongo-driver v1.11.1
 )
 
 require (
@@ -27,7 +28,6 @@ require (
 	github.com/tklauser/go-sysconf v0.3.9 // indirect
 	github.com/tklauser/numcpus v0.3.0 // indirect
 	github.com/trivago/tgo v1.0.7 // indirect
-	go.mongodb.org/mongo-driver v1.11.1 // indirect
 	golang.org/x/net v0.0.0-20211112202133-69e39bad7dc2 // indirect
 	golang.org/x/oauth2 v0.0.0-20211005180243-6b3c2da341f1 // indirect
 	golang.org/x/sys v0.0.0-20220811171246-fbc7d0a398ab // indirect
